@@ -48,6 +48,7 @@ impl Block {
 fn main() {
     // a stack overflow / abort in the code under test must become a verdict, not a dead check
     vcore::supervise("C06");
+    vcore::install_log_evaluation(); // logging is part of the environment: log arguments are evaluated as under a real subscriber
     let ctx = Ctx::from_args("C06", "exploration");
     let nondet = AtomicBool::new(false);
 
